@@ -5,12 +5,16 @@ import Hannibal.Driver.Spawn18
 import Hannibal.Driver.Types19
 import Hannibal.Driver.Reg08
 import Hannibal.Driver.Sys16
+import Hannibal.Driver.Brk09
 import Hannibal.Generated.Wiring
 open Hannibal Hannibal.Driver
 
 def reprLabel (l : Label) : String := (toString (repr l)).replace "\n" " "
 
 def processCase (mode : String) (pid : String) (header : String) (lines : List String) : IO Unit := do
+  if mode == "brk09" then
+    IO.println (processBrk header lines (pid == "witness"))
+    return ()
   if mode == "sys16" then
     IO.println (processSys Wiring.current header lines (pid == "witness"))
     return ()
